@@ -85,7 +85,7 @@ def run(prop=None, only=None, verbose=False):
                 continue
             keys = run_props(props, ff)
             new = {p: [k for k in keys[p] if k not in base[p]] for p in props}
-            flat = [k for p in props for k in new[p]]
+            flat = [k for p in props for k in new[p] if p in o["props"]]
             if o["kind"] == "fire":
                 hit = [k for k in flat if o["expect"] in k]
                 st = "fired" if hit else "MISSED"
